@@ -130,4 +130,11 @@ def boundAfter (g : Graph) (first : Chain) (then_ : List Chain) (owner x : Nat) 
   | .ok st => st.isBound owner x
   | .error _ => false
 
+/-- the registry after a fresh interpreter imported `first` and then `then_`: every module whose body has FINISHED has
+    run its registration statements (`regs` = per module the ids of the names it registers); empty when an import fails -/
+def registeredAfter (g : Graph) (regs : List (List Nat)) (first : Chain) (then_ : List Chain) : List Nat :=
+  match (first :: then_).foldlM (fun st c => importChain g c st) ({} : St) with
+  | .ok st => (st.mods.filter (·.2)).flatMap (fun p => regs.getD p.1 [])
+  | .error _ => []
+
 end PyImp
